@@ -694,8 +694,12 @@ def parse_vc(path):
                     fn['attrs'] += s2[6:].strip() + '\n'
                 elif s2 == '#spec':
                     fn['spec'] = block('#end')
-                elif s2.startswith('#loop '):
+                elif s2.startswith('#loop ') or s2.startswith('#loop-opt '):
+                    # (`#loop-opt N`: for the LAST loop of a body only - if the body has fewer loops the annotation is dropped
+                    # instead of reporting a lost anchor; what the loop established then has to hold without it)
                     fn['loops'][int(s2.split()[1])] = block('#end')
+                    if s2.startswith('#loop-opt '):
+                        fn.setdefault('loops_opt', set()).add(int(s2.split()[1]))
                 elif s2.startswith('#closure '):
                     n_ = int(s2.split()[1])
                     c = {'param': None, 'ret': None, 'spec': '', 'match': None}
@@ -1432,6 +1436,9 @@ def extract_fn(repo, spec, features):
     # ---- E5: loops
     lps = [i for i in loops_in(sf, bo + 1, bc) if alive(T[i])]
     for n_, inv in spec['loops'].items():
+        if n_ - 1 >= len(lps) and n_ in spec.get('loops_opt', ()) and n_ == max(spec['loops']) and n_ - 1 == len(lps):
+            log.append({'step': 'E5', 'skipped': f'loop {n_} not in the body; annotation dropped'})
+            continue
         if n_ - 1 >= len(lps):
             raise ExtractError(f'lost anchor: loop {n_} of {spec["name"]} (body has {len(lps)})')
         li = lps[n_ - 1]
